@@ -1820,7 +1820,11 @@ aiff_read_chanmap (SF_PRIVATE * psf, unsigned dword)
 
 static int
 aiff_set_chunk (SF_PRIVATE *psf, const SF_CHUNK_INFO * chunk_info)
-{	return psf_save_write_chunk (&psf->wchunks, chunk_info) ;
+{	/* The header parser gives up at a marker that is not four printable characters. */
+	if (! psf_chunk_id_is_printable (chunk_info))
+		return SFE_BAD_CHUNK_MARKER ;
+
+	return psf_save_write_chunk (&psf->wchunks, chunk_info) ;
 } /* aiff_set_chunk */
 
 static SF_CHUNK_ITERATOR *
